@@ -32,3 +32,13 @@ func specThrownException(x interface{}) *Exception {
 	e, _ := x.(*Exception)
 	return e
 }
+
+func specIsInterruptedError(x interface{}) bool {
+	_, ok := x.(*InterruptedError)
+	return ok
+}
+
+func specIsStackOverflow(x interface{}) bool {
+	_, ok := x.(*StackOverflowError)
+	return ok
+}
